@@ -218,6 +218,10 @@ func (p *Profile) genEvent(rng *rand.Rand, tr *Trace) M {
 	}
 	branchName := func(existing bool) string {
 		if hostile() {
+			if len(branches) > 0 && rng.Intn(4) == 0 {
+				// an existing branch under its full reference name, or a part of it
+				return []string{"refs/heads/", "heads/", "./"}[rng.Intn(3)] + branches[rng.Intn(len(branches))]
+			}
 			return hostileBranches[rng.Intn(len(hostileBranches))]
 		}
 		if len(branches) > 0 && rng.Intn(12) == 0 {
